@@ -15,7 +15,7 @@ std::string encode_props(const Props& p);
 
 // ---- strict decoding of one complete packet (fixed header included)
 // returns empty string on success, else a description of the first violation
-std::string decode_strict(const std::string& raw, Packet& out);
+std::string decode_strict(const std::string& raw, Packet& out, bool from_server = false);
 
 // ---- incremental framing of a byte stream
 struct Framer {
